@@ -31,6 +31,36 @@ func keyWithLeadingZeros(r *rand.Rand, kt opb.KeyType, zeros int) *opb.Key {
 	return opb.NewKey(r, kt)
 }
 
+// pointWithSmallX constructs a public point whose x has `zeros` leading zero bytes (all four
+// field primes are 3 mod 4, so a square root is one exponentiation).
+func pointWithSmallX(r *rand.Rand, kt opb.KeyType, zeros int) (*big.Int, *big.Int) {
+	c := kt.Curve()
+	p := c.Params().P
+	size := kt.CoordSize()
+	x := new(big.Int).SetBytes(opb.RandBytes(r, size-zeros))
+	x.Mod(x, p)
+	exp := new(big.Int).Add(p, big.NewInt(1))
+	exp.Rsh(exp, 2)
+	for {
+		// y^2 = x^3 + ax + b ; a = -3 for the NIST curves, 0 for secp256k1
+		rhs := new(big.Int).Mul(x, x)
+		rhs.Mul(rhs, x)
+		if kt != opb.Secp256k1 {
+			rhs.Sub(rhs, new(big.Int).Mul(big.NewInt(3), x))
+		}
+		rhs.Add(rhs, c.Params().B)
+		rhs.Mod(rhs, p)
+		y := new(big.Int).Exp(rhs, exp, p)
+		if new(big.Int).Mod(new(big.Int).Mul(y, y), p).Cmp(rhs) == 0 && c.IsOnCurve(x, y) {
+			if r.Intn(2) == 0 {
+				y.Sub(p, y)
+			}
+			return x, y
+		}
+		x.Add(x, big.NewInt(1))
+	}
+}
+
 func randPayload(r *rand.Rand) []byte {
 	switch r.Intn(4) {
 	case 0:
@@ -191,8 +221,9 @@ func genC16(r *rand.Rand, n int, emit func(string)) {
 			k = keyWithLeadingZeros(r, kt, 1)
 			label += "/leading-zero"
 		case 1:
-			k = keyWithLeadingZeros(r, kt, 2)
-			label += "/leading-zeros-2"
+			x, y := pointWithSmallX(r, kt, 1+r.Intn(3))
+			emit(proto.Line("jwk", M{"curve": kt.String(), "x": hexInt(x), "y": hexInt(y), "label": label + "/leading-zeros-constructed"}))
+			continue
 		default:
 			k = opb.NewKey(r, kt)
 		}
